@@ -372,3 +372,9 @@ _app("C09", "text", " The Gauss-Jordan routine LA.qsolve used by the runner is p
      "(C09_chk_solution_full, C09_chk_solution_is_about_R_model).")
 _app("C04", "text", " The Gauss-Jordan routine LA.qsolve used by the runner is proved sound, unique and complete (coq/proofs/QSolve_proofs.v): on a well-formed dataset with lambda > 0 it always answers, "
      "and the model's own solution, embedded in R, satisfies the normal equations and minimises the ridge objective (C04_chk_fit_solution_is_ridge_optimum).")
+_app("C08", "text", " The state contexts themselves (Node.with_state / reset / zero_state / state / _flag_feedback, _base.call, Model.with_state both paths, Model.reset) are ALSO translated from the "
+     "current source text on every run (tools/vlib/py2coq_state.py -> coq/gen/Gen_state.v over base/CtxPrelude.v) and proved to be the ModelSem operations for every `with` body and both outcomes: "
+     "the generated with_state restores _state unless stateful whether the body returns or raises, with no hypothesis (C08_generated_*, closed under the global context).")
+_app("C08", "note", "; tie (T): py2coq_state.py and base/CtxPrelude.v (heap-passing computations that survive exceptions, try/finally, generator context managers as functions of the with-body, ExitStack "
+     "as nesting); assumes accepted check_one_sequence arguments and an initialised model at model level; Model.call / run / with_feedback stay on tie (H)")
+_app("C08", "technique", " + state contexts translated on every run and proved equal to the model (translator tie)")
